@@ -653,6 +653,8 @@ def all_paths_hit(f, start_block, hits):
             return True
         start = [0]
     else:
+        if f.blocks[start_block]['t']['t'] == 'return':
+            return False
         start = list(f.succs()[start_block])
     seen = set()
     stack = start
